@@ -150,10 +150,18 @@ def replay_race(name, nthreads, trace):
             call = lambda: obj.encode_int6(1)  # noqa
             expected = b"/"
         codes = [cls.__dict__["__getattribute__"].__code__, cls.__dict__["_lazy_init"].__code__]
+        # the real constructor is traced too, so that "inside the constructor" is a place a thread can be held at
+        for k in cls.__mro__[1:]:
+            if "__init__" in k.__dict__ and hasattr(k.__dict__["__init__"], "__code__"):
+                codes.append(k.__dict__["__init__"].__code__)
+                break
     sched = LineScheduler(codes, nthreads)
     results = {}
 
+    gates = [threading.Event() for _ in range(nthreads)]
+
     def worker(tid):
+        gates[tid].wait(30)                 # a thread makes its call only when the schedule first gives it a step
         sys.settrace(sched.tracer_for(tid))
         try:
             results[tid] = ("ok", call())
@@ -167,8 +175,6 @@ def replay_race(name, nthreads, trace):
     ths = [threading.Thread(target=worker, args=(t,), daemon=True) for t in range(nthreads)]
     for t in ths:
         t.start()
-    for t in range(nthreads):
-        sched.wait_parked(t)
     steps = []
     lastline = {}
     for t, pc, kind, ln in trace:
@@ -178,8 +184,13 @@ def replay_race(name, nthreads, trace):
         if ln:
             lastline[t] = ln
     for t, ln in steps:
-        sched.advance_to(t, ln)
+        if not gates[t].is_set():
+            gates[t].set()
+            sched.wait_parked(t)            # parks at its first traced line - or runs through if it meets no traced code
+        sched.advance_to(t, ln, limit=12)
         sched.step(t)
+    for g in gates:
+        g.set()
     # the thread the schedule ends in finishes its call first, the others stay where the schedule left them (unless it
     # blocks on a lock one of them holds: then everything is released)
     if trace:
